@@ -67,6 +67,8 @@ impl TaskManager {
 				loop {
 					// Wait for notification
 					notify.notified().await;
+					#[cfg(surrealkv_verif)]
+					crate::verif::bg_progress();
 
 					if stop_flag.load(Ordering::SeqCst) {
 						break;
@@ -126,6 +128,8 @@ impl TaskManager {
 				loop {
 					// Wait for notification
 					notify.notified().await;
+					#[cfg(surrealkv_verif)]
+					crate::verif::bg_progress();
 
 					if stop_flag.load(Ordering::SeqCst) {
 						break;
